@@ -453,22 +453,14 @@ def rt (T : List Desc) : Nat → Shape → JV → Res JV
   | 0, _, _ => .error .fuel
   | n + 1, s, v => rtStep T (rt T n) s v
 
-/-! ### scope of the deep stability theorem -/
-
-/-- a `$ref` member, where there is one, is a non-empty string -/
-def refOK (o : Obj) : Bool :=
-  match lookup "$ref" o with
-  | none => true
-  | some (.str s) => s != ""
-  | some _ => false
+/-! ### exclusion and side conditions of the deep stability theorem -/
 
 mutual
-/-- No object anywhere in the document is changed by the date-trimming statement (exclusion class
-    DateExampleTrim, applied at every depth and whatever the object's kind), and every `$ref` member is a
-    non-empty string. -/
+/-- No object anywhere in the document is changed by the date-trimming statement: the exclusion class
+    DateExampleTrim, applied at every depth (and whatever kind the object is read as). -/
 def JV.clean : JV → Bool
   | .arr xs => cleanL xs
-  | .obj kvs => !trimmable kvs && refOK kvs && cleanO kvs
+  | .obj kvs => !trimmable kvs && cleanO kvs
   | _ => true
 def cleanL : List JV → Bool
   | [] => true
@@ -510,8 +502,13 @@ def tcShapeOK : TC → Shape → Bool
 /-- side conditions of the deep stability theorem on one row of the table (decidable; `by decide` over the
     regenerated table): struct kinds agree, child shapes fit the type classes, the post-processing reads plain
     fields; wrappers and aliases do not stand for a bare type list -/
+def refSafe : Shape → Bool
+  | .map s => s != .types
+  | .pmap s => s != .types
+  | _ => true
+
 def Desc.deepOK (d : Desc) : Bool :=
-  d.valueShape != .types &&
+  d.valueShape != .types && refSafe d.valueShape &&
   match d.template with
   | .struct =>
     structAgree d && d.fields.all (fun f => tcShapeOK f.tc f.shape) &&
